@@ -3,9 +3,10 @@
 cotengra.contract:extract_contractions(tree, order, prefer_einsum), for a tree
 without single-term preprocessing: the k-th entry is the k-th step (p, l, r) of
 tree.traverse(order) - same nodes, same order, children in the same order - and
-carries the recipe OF THAT PARENT: the einsum equation get_einsum_eq(p) (and no
-permutation) when einsum is preferred or tensordot cannot do the step, else
-get_tensordot_axes(p) with get_tensordot_perm(p).
+carries the recipe OF THAT PARENT by the method the entry names: the einsum
+equation get_einsum_eq(p) and no permutation, or - only where tensordot can do the
+step - get_tensordot_axes(p) with get_tensordot_perm(p).  Which of the two is
+chosen when both would do is not pinned (a performance matter).
 
 With the traversal contract (children before parents, no step twice: traversal.py),
 the recipe contracts (einsum_eq.py, tensordot_recipe.py) and the execution
@@ -69,7 +70,6 @@ def x_perm(engine, st, args, node, kw):
 
 TR = "tree.traverse(order)"
 P = f"{TR}[k][0]"
-TDOT = f"(not prefer_einsum and tree.get_can_dot({P}))"
 extract = Contract(
     target="cotengra.contract:extract_contractions",
     variant="no-preprocessing",
@@ -84,8 +84,9 @@ extract = Contract(
         f"len(result) == len({TR})",
         # same steps, same order, children in the same order
         f"forall(0, len(result), lambda k: result[k][0] == {TR}[k][0] and result[k][1] == {TR}[k][1] and result[k][2] == {TR}[k][2])",
-        # tensordot exactly when allowed and possible
-        f"forall(0, len(result), lambda k: result[k][3] == {TDOT})",
+        # tensordot only where it can do the step (WHICH of the two is chosen when both can is a performance
+        # matter, not part of the value property: deliberately not pinned)
+        f"forall(0, len(result), lambda k: implies(result[k][3], tree.get_can_dot({P})))",
         # ... each with the recipe of its own parent
         f"forall(0, len(result), lambda k: implies(result[k][3], result[k][4] == tree.get_tensordot_axes({P}) and result[k][5] == tree.get_tensordot_perm({P})))",
         f"forall(0, len(result), lambda k: implies(not result[k][3], result[k][4] == tree.get_einsum_eq({P}) and result[k][5] is None))",
@@ -95,18 +96,24 @@ extract = Contract(
 CONTRACTS = [extract]
 
 
-def _expected(tree, order, prefer_einsum):
-    out = []
-    for p, l, r in tree.traverse(order=order):
-        if (not prefer_einsum) and tree.get_can_dot(p):
-            out.append((p, l, r, True, tree.get_tensordot_axes(p), tree.get_tensordot_perm(p)))
-        else:
-            out.append((p, l, r, False, tree.get_einsum_eq(p), None))
-    return tuple(out)
+def _consistent(result, tree, order):
+    """every entry is the traversal step at its position with the recipe of its own parent, by the method it names"""
+    steps = list(tree.traverse(order=order))
+    if len(result) != len(steps):
+        return False
+    for (p, l, r, tdot, arg, perm), (p0, l0, r0) in zip(result, steps):
+        if (p, l, r) != (p0, l0, r0):
+            return False
+        if tdot:
+            if not tree.get_can_dot(p) or arg != tree.get_tensordot_axes(p) or perm != tree.get_tensordot_perm(p):
+                return False
+        elif arg != tree.get_einsum_eq(p) or perm is not None:
+            return False
+    return True
 
 
-extract.natives = {"expected_schedule": _expected}
-extract.ensures_rt = ["tuple(result) == expected_schedule(tree, order, prefer_einsum)"]
+extract.natives = {"consistent": _consistent}
+extract.ensures_rt = ["consistent(result, tree, order)"]
 
 
 def _gen(rng):
